@@ -26,6 +26,28 @@ fn directive(rng: &mut Rng) -> String {
     format!("@[format({})]\n", opts.join(", "))
 }
 
+/// (explicit width, verbatim) of the directive line the generator put in front, if any.
+fn directive_info(text: &str) -> (Option<u64>, bool) {
+    if !text.starts_with("@[format(") {
+        return (None, false);
+    }
+    let line = text.lines().next().unwrap_or("");
+    let width = line.find("width(").and_then(|i| line[i + 6..].split(')').next()).and_then(|w| w.parse().ok());
+    (width, line.contains("verbatim"))
+}
+
+fn squeeze(s: &str) -> String {
+    s.chars().filter(|c| !c.is_whitespace()).collect()
+}
+
+const LITERALS: [&str; 40] = [
+    "\"\u{0}x\"", "\"a\u{1}b\"", "\"\u{7f}\"", "\"zero\u{200b}width\"", "\"e\u{301}\"", "\"\u{1f468}\u{200d}\u{1f469}\"", "\"\u{feff}bom\"",
+    "\"soft\u{ad}hyphen\"", "\"tab\there\"", "\"line\nbreak\"", "\"esc \\\\ \\\" \\n \\t \\r\"", "\"\\q\"", "\"\u{85}\"", "\"\u{2028}\"", "\"'\"",
+    "'a'", "'\\\\'", "'\\''", "'\"'", "'\\n'", "'~'", "' '", "'|'", "'\\|'",
+    "1.5", "-0.0", "10000000000000000.0", "0.00000001", "1e5", "1E-3", "123456789012345678.5", "+2.5", "0.1000000000000000055511151231257827",
+    "0", "-0", "+5", "007", "170141183460469231731687303715884105727", "-170141183460469231731687303715884105728", "18446744073709551616",
+];
+
 const COMMENTS: [&str; 6] = ["-- c%\n", " /- b% -/ ", "/- o% /- nested -/ x -/", "\n-- own line %\n", " -- tail %\n", "/- m%\n multi\n -/\n"];
 
 /// A mutant of a parseable source that should still parse.
@@ -52,6 +74,7 @@ fn mutate(src: &str, rng: &mut Rng, kind: u64, counter: &mut usize) -> String {
     for g in chosen.into_iter().rev() {
         let ins: String = match kind {
             | 0 => rng.pick(&[" ", "  ", "\n", "\n\n", "\n\n\n", "\t", " \n "]).to_string(),
+            | 2 => rng.pick(&[" ", "  ", "\t", "   "]).to_string(),
             | _ => {
                 *counter += 1;
                 rng.pick(&COMMENTS).replace('%', &counter.to_string())
@@ -89,32 +112,138 @@ pub fn run(opts: &Opts) -> i32 {
             inputs.push((tag, text));
         }
     }
+    // horizontal-spacing pairs (C14): the mutant must format to the same text as its original
+    let mut pairs: Vec<(usize, usize)> = Vec::new();
+    for (k, (p, t)) in corpus.iter().enumerate() {
+        let n = if opts.thorough() { 6 } else if k % 3 == 0 { 1 } else { 0 };
+        for _ in 0..n {
+            let base = inputs.len();
+            let prefix = if rng.chance(1, 2) { directive(&mut rng).replace(", verbatim", "").replace("(verbatim)", "(width(80))") } else { String::new() };
+            if t.contains("verbatim") {
+                continue; // a verbatim region is copied as written, spacing included
+            }
+            inputs.push((format!("hbase:{}", p.display()), format!("{prefix}{t}")));
+            inputs.push((format!("hspace:{}", p.display()), format!("{prefix}{}", mutate(t, &mut rng, 2, &mut counter))));
+            pairs.push((base, base + 1));
+        }
+    }
+    // literal spellings (C12): every literal in a few positions
+    for (k, lit) in LITERALS.iter().enumerate() {
+        let text = match k % 3 {
+            | 0 => format!("ret {lit}\n"),
+            | 1 => format!("do x <- ret {lit};\nret (x, {lit})\n"),
+            | _ => format!("begin\n  let x = {lit} in\n  ! f {lit} x\nend\n"),
+        };
+        inputs.push((format!("literal:{k}"), text));
+    }
+    // unparseable inputs (C12): the file must be left as it is
+    for (k, (p, t)) in corpus.iter().enumerate() {
+        if !(opts.thorough() || k % 4 == 0) {
+            continue;
+        }
+        let mut text = t.clone();
+        let cut = rng.below(text.len().max(1) as u64) as usize;
+        let cut = (cut..text.len()).find(|i| text.is_char_boundary(*i)).unwrap_or(text.len());
+        text.insert_str(cut, *rng.pick(&[")", "(", "}", " end ", " | ", "\"", " -/ ", " /- ", " = ", "\u{1}"]));
+        inputs.push((format!("broken:{}", p.display()), text));
+    }
+    // string literal spelling against the Lean model (C12): what the printer writes for a value,
+    // what the reader makes of a literal body
+    if only == "c12" {
+        use logos::Logos;
+        let alphabet: Vec<char> = vec!['\\', '"', '\n', '\r', '\t', '\0', '\u{1}', '\u{7f}', '\u{200b}', '\u{301}', '\u{1f600}', '\'', 'n', 'r', 't', 'a', ' ', 'u', '{', '}', '0', 'é'];
+        let n = if opts.thorough() { 20000 } else { 2000 };
+        for k in 0..n {
+            let len = rng.below(if k % 2 == 0 { 5 } else { 12 }) as usize;
+            let v: String = (0..len).map(|_| *rng.pick(&alphabet)).collect();
+            if k % 2 == 0 {
+                // spell
+                let source = format!("ret \"{}\"\n", v.replace('\\', "\\\\").replace('"', "\\\""));
+                let answer = match fmt::format(&source) {
+                    | Formatted::Ok(out) => {
+                        let body = out.strip_prefix("ret \"").and_then(|r| r.strip_suffix("\"\n"));
+                        match body {
+                            | Some(b) => crate::common::hex(b.as_bytes()),
+                            | None => format!("unexpected-output {}", crate::common::hex(out.as_bytes())),
+                        }
+                    }
+                    | Formatted::ParseError => "parse-error".into(),
+                    | Formatted::Panic(m, _) => format!("panic {}", m.replace(['\t', '\n'], " ")),
+                };
+                sink.case(&format!("c12 spell {}", crate::common::hex(v.as_bytes())), &answer);
+                sink.count("spell_requests");
+            } else {
+                let literal = format!("\"{v}\"");
+                let mut lexer = zydeco_surface::textual::Tok::lexer(&literal).spanned();
+                let one_token = matches!(lexer.next(), Some((Ok(zydeco_surface::textual::Tok::StrLit(_)), r)) if r == (0..literal.len()));
+                let answer = if one_token {
+                    match crate::common::catch(|| zydeco_surface::textual::escape::apply_string_escapes(&v)) {
+                        | Ok(value) => crate::common::hex(value.as_bytes()),
+                        | Err(_) => "unwrap-fails".into(),
+                    }
+                } else {
+                    "not-a-token".into()
+                };
+                sink.count(if one_token { "read_requests_token" } else { "read_requests_not_token" });
+                sink.case(&format!("c12 read {}", crate::common::hex(v.as_bytes())), &answer);
+            }
+        }
+    }
+    let files_dir = opts.out.join("fmtfiles");
+    let _ = std::fs::create_dir_all(&files_dir);
     let only2 = only.clone();
     let inputs_copy: Vec<(String, String)> = inputs.clone();
-    let (results, hung) = par_map_watchdog(inputs, n_threads(), std::time::Duration::from_secs(30), || (), move |_, (tag, text)| {
-        let (tag, text) = (tag.clone(), text.clone());
+    let files_dir2 = files_dir.clone();
+    let inputs_indexed: Vec<(usize, String, String)> = inputs.iter().enumerate().map(|(i, (a, b))| (i, a.clone(), b.clone())).collect();
+    let (results, hung) = par_map_watchdog(inputs_indexed, n_threads(), std::time::Duration::from_secs(30), || (), move |_, (index, tag, text)| {
+        let (index, tag, text) = (*index, tag.clone(), text.clone());
         let mut findings: Vec<(String, serde_json::Value)> = Vec::new();
         let mut stats: Vec<String> = Vec::new();
-        let mut req: Option<(String, String)> = None;
-        match fmt::format(&text) {
+        let mut req: Option<(String, String, String)> = None;
+        let mut rendered: Option<String> = None;
+        let first = fmt::format(&text);
+        match &first {
             | Formatted::ParseError => stats.push("unparseable".into()),
             | Formatted::Panic(m, l) => {
                 stats.push("panic".into());
                 findings.push(("c12-formatter-panics".into(), serde_json::json!({"tag": tag, "panic": m, "at": l.replace("/repo/", ""), "source": text})));
             }
             | Formatted::Ok(out) => {
+                let out = out.clone();
+                rendered = Some(out.clone());
                 stats.push("formatted".into());
+                let (glued, unglued) = fmt::glued_line_comments(&text, &out);
                 // C12: output parses and denotes the same term
-                match (fmt::desugared_shape(&text), fmt::desugared_shape(&out)) {
-                    | (Ok(a), Ok(b)) if a == b => {}
-                    | (Ok(_), Ok(_)) => findings.push(("c12-meaning-changed".into(), serde_json::json!({"tag": tag, "source": text, "formatted": out}))),
-                    | (Ok(_), Err(e)) => findings.push(("c12-output-does-not-reparse".into(), serde_json::json!({"tag": tag, "error": e, "source": text, "formatted": out}))),
+                let shape_in = fmt::desugared_shape(&text);
+                let class = |bad: &str| -> String {
+                    if !glued.is_empty() && fmt::desugared_shape(&unglued).ok() == shape_in.clone().ok() {
+                        "glued-line-comment".into()
+                    } else if text.contains("verbatim") {
+                        "verbatim-directive".into()
+                    } else {
+                        bad.into()
+                    }
+                };
+                match (&shape_in, fmt::desugared_shape(&out)) {
+                    | (Ok(a), Ok(b)) if *a == b => {}
+                    | (Ok(_), Ok(_)) => findings.push(("c12-meaning-changed".into(), serde_json::json!({"tag": tag, "class": class("other"), "glued": glued, "source": text, "formatted": out}))),
+                    | (Ok(_), Err(e)) => findings.push(("c12-output-does-not-reparse".into(), serde_json::json!({"tag": tag, "class": class("other"), "glued": glued, "error": e, "source": text, "formatted": out}))),
                     | (Err(_), _) => stats.push("input-does-not-desugar".into()),
                 }
                 // C13: accounting of comments and content tokens, decided by the Lean oracle
                 let a = fmt::items(&text);
                 let b = fmt::items(&out);
-                req = Some((format!("c13 accounts {} | {}", fmt::encode(&a), fmt::encode(&b)), "ok".into()));
+                req = Some((
+                    format!("c13 accounts {} | {}", fmt::encode(&a), fmt::encode(&b)),
+                    "ok".into(),
+                    if !glued.is_empty() {
+                        "glued-line-comment".into()
+                    } else if text.contains("verbatim") {
+                        "verbatim-directive".into()
+                    } else {
+                        "ok".into()
+                    },
+                ));
                 let n_comments = a.iter().filter(|i| matches!(i, Item::Comment(..))).count();
                 if n_comments > 0 {
                     stats.push("with-comments".into());
@@ -125,26 +254,86 @@ pub fn run(opts: &Opts) -> i32 {
                     | Formatted::Ok(out2) => {
                         // creeping layout? look at the third pass too
                         let third = match fmt::format(&out2) { | Formatted::Ok(t) => t, | _ => String::new() };
-                        findings.push(("c14-not-idempotent".into(), serde_json::json!({"tag": tag, "source": text, "once": out, "twice": out2, "thrice_equals_twice": third == out2})));
+                        let (width, verbatim) = directive_info(&text);
+                        let class = if fmt::strip_block_indent(&out) == fmt::strip_block_indent(&out2) {
+                            "block-comment-continuation-indent"
+                        } else if !glued.is_empty() {
+                            "glued-line-comment"
+                        } else if verbatim || text.contains("verbatim") {
+                            "verbatim-directive"
+                        } else if squeeze(&out) == squeeze(&out2) && third == out2 {
+                            let _ = width;
+                            "two-pass-relayout"
+                        } else {
+                            "other"
+                        };
+                        findings.push(("c14-not-idempotent".into(), serde_json::json!({"tag": tag, "class": class, "source": text, "once": out, "twice": out2, "thrice_equals_twice": third == out2})));
                     }
-                    | _ => findings.push(("c14-output-does-not-reformat".into(), serde_json::json!({"tag": tag, "source": text, "once": out}))),
+                    | Formatted::ParseError => findings.push(("c14-output-does-not-reformat".into(), serde_json::json!({"tag": tag, "class": class("other"), "how": "parse error", "source": text, "once": out}))),
+                    | Formatted::Panic(m, l) => findings.push(("c14-output-does-not-reformat".into(), serde_json::json!({"tag": tag, "class": if l.contains("textual/pretty.rs") && m.contains("unwrap") { "render-failure" } else { "other" }, "how": format!("panic {m} @ {}", l.replace("/repo/", "")), "source": text, "once": out}))),
                 }
                 if !(out.ends_with('\n') && !out.ends_with("\n\n")) {
                     findings.push(("c14-trailing-newline".into(), serde_json::json!({"tag": tag, "source": text, "tail": out.chars().rev().take(6).collect::<String>()})));
                 }
             }
         }
+        // the command-line adapter on a real file: `fmt --check` agrees with `fmt`, an unparseable
+        // file is left byte for byte as it was, what is written is what the renderer produced
+        if !matches!(first, Formatted::Panic(..)) {
+            use zydeco_cli::format::{SourceFormatOutcome, SourceFormatter};
+            let path = files_dir2.join(format!("f{index}.zy"));
+            if std::fs::write(&path, &text).is_ok() {
+                let res = crate::common::catch(|| {
+                    let c = SourceFormatter.check_path(&path).map_err(|e| e.to_string());
+                    let after_check = std::fs::read(&path).unwrap_or_default();
+                    let w = SourceFormatter.format_path(&path).map_err(|e| e.to_string());
+                    let after_write = std::fs::read(&path).unwrap_or_default();
+                    (c, after_check, w, after_write)
+                });
+                let _ = std::fs::remove_file(&path);
+                match res {
+                    | Err((m, l)) => findings.push(("c12-formatter-panics".into(), serde_json::json!({"tag": tag, "where": "SourceFormatter", "panic": m, "at": l.replace("/repo/", ""), "source": text}))),
+                    | Ok((c, after_check, w, after_write)) => {
+                        stats.push("cli-checked".into());
+                        if after_check != text.as_bytes() {
+                            findings.push(("c14-check-modified-the-file".into(), serde_json::json!({"tag": tag, "source": text})));
+                        }
+                        let modified = after_write != text.as_bytes();
+                        match (&c, &w, &rendered) {
+                            | (Ok(c), Ok(w), Some(out)) => {
+                                let (c, w) = (*c == SourceFormatOutcome::Changed, *w == SourceFormatOutcome::Changed);
+                                if c != modified || w != modified {
+                                    findings.push(("c14-check-disagrees-with-write".into(), serde_json::json!({"tag": tag, "check_says_changed": c, "write_says_changed": w, "file_modified": modified, "source": text})));
+                                }
+                                if after_write != out.as_bytes() {
+                                    findings.push(("c12-file-differs-from-rendering".into(), serde_json::json!({"tag": tag, "source": text, "rendered": out, "file": String::from_utf8_lossy(&after_write)})));
+                                }
+                            }
+                            | (Err(_), Err(_), None) => {
+                                stats.push("cli-rejected".into());
+                                if modified {
+                                    findings.push(("c12-unparseable-file-modified".into(), serde_json::json!({"tag": tag, "source": text, "file": String::from_utf8_lossy(&after_write)})));
+                                }
+                            }
+                            | _ => findings.push(("c12-cli-disagrees-with-library".into(), serde_json::json!({"tag": tag, "check": format!("{c:?}"), "write": format!("{w:?}"), "library_formatted": rendered.is_some(), "source": text}))),
+                        }
+                    }
+                }
+            }
+        }
         let _ = &only2;
-        (tag, findings, stats, req)
+        (tag, findings, stats, req, rendered)
     });
     for i in &hung {
         let (tag, text) = &inputs_copy[*i];
         sink.count("hung");
         if only == "c12" {
-            sink.violation("c12-formatter-does-not-terminate", serde_json::json!({"tag": tag, "limit_s": 30, "source": text}));
+            sink.violation("c12-formatter-does-not-terminate", serde_json::json!({"tag": tag, "limit_s": 30, "directive_width": directive_info(text).0, "source": text}));
         }
     }
-    for (_, (tag, findings, stats, req)) in results {
+    let mut outputs: std::collections::HashMap<usize, Option<String>> = std::collections::HashMap::new();
+    for (i, (tag, findings, stats, req, rendered)) in results {
+        outputs.insert(i, rendered);
         let stream = tag.split(':').next().unwrap_or("").to_string();
         for s in stats {
             sink.count(&format!("{stream}_{s}"));
@@ -156,14 +345,28 @@ pub fn run(opts: &Opts) -> i32 {
                 sink.count(&format!("other_property_{kind}"));
             }
         }
-        if let Some((r, a)) = req {
-            if only == "c13" {
-                sink.case(&r, &a);
+        if let Some((r, a, o)) = req {
+            if only == "c13" && stream == "literal" {
+                // literals are re-spelled canonically (`+5` as `5`, `1e5` as `100000.0`): C12's subject
+                sink.count("literal_not_accounted");
+            } else if only == "c13" {
+                sink.case3(&r, &a, &o);
             } else {
                 sink.case(&format!("# {}", tag.replace([' ', '\t'], "_")), "formatted");
             }
         }
     }
+    for (a, b) in pairs {
+        if let (Some(Some(x)), Some(Some(y))) = (outputs.get(&a), outputs.get(&b)) {
+            sink.count("hspace_pairs_compared");
+            if x != y && only == "c14" {
+                sink.violation("c14-spacing-changes-output", serde_json::json!({"tag": inputs_copy[b].0, "base": inputs_copy[a].1, "respaced": inputs_copy[b].1, "formatted_base": x, "formatted_respaced": y}));
+            } else if x != y {
+                sink.count("other_property_c14-spacing-changes-output");
+            }
+        }
+    }
+    let _ = std::fs::remove_dir_all(&files_dir);
     sink.finish();
     if !hung.is_empty() {
         // abandoned worker threads are still spinning
